@@ -480,18 +480,21 @@ class Program:
         return base in self.exc_chain(name)
 
     # ---- constant folding -----------------------------------------------
-    def fold(self, expr, module, cls=None, env=None, _depth=0):
+    def fold(self, expr, module, cls=None, env=None, _depth=0, class_body=False):
+        """class_body: the expression is the value of a class attribute, evaluated in the class body, where the names of the
+        class's earlier attributes are visible (in a method body they are not)."""
         if _depth > 20:
             raise NotConst()
-        f = lambda e: self.fold(e, module, cls, env, _depth + 1)
+        f = lambda e: self.fold(e, module, cls, env, _depth + 1, class_body)
         if isinstance(expr, ast.Constant):
             return expr.value
         if isinstance(expr, ast.Name):
             if env and expr.id in env:
                 return env[expr.id]
-            if cls is not None:
+            if cls is not None and class_body:
                 r = self.lookup_classattr(cls, expr.id)
-                # class-body names are not visible in methods; only via self./Class.
+                if r:
+                    return self.fold(r[1], r[0].module, r[0], None, _depth + 1, True)
             r = self.resolve(module, expr.id)
             if r and r[0] == "const":
                 return self.fold(r[1], r[2], None, None, _depth + 1)
@@ -502,7 +505,7 @@ class Program:
             if isinstance(expr.value, ast.Name) and expr.value.id == "self" and cls is not None:
                 r = self.lookup_classattr(cls, expr.attr)
                 if r:
-                    return self.fold(r[1], r[0].module, r[0], None, _depth + 1)
+                    return self.fold(r[1], r[0].module, r[0], None, _depth + 1, True)
             raise NotConst()
         if isinstance(expr, ast.UnaryOp):
             v = f(expr.operand)
@@ -546,9 +549,9 @@ class Program:
                 raise NotConst()
         raise NotConst()
 
-    def try_fold(self, expr, module, cls=None, env=None):
+    def try_fold(self, expr, module, cls=None, env=None, class_body=False):
         try:
-            return True, self.fold(expr, module, cls, env)
+            return True, self.fold(expr, module, cls, env, 0, class_body)
         except NotConst:
             return False, None
 
